@@ -176,6 +176,12 @@ def part_patterns(res, rng, tier, n):
             for tr in range(tracks):
                 if style == "sparse" and rng.random() < 0.8:
                     cells.append(bytes(8))
+                elif style == "sparse":
+                    # a single column set, the rest empty (module-only, velocity-only, ... cells)
+                    f = [0, 0, 0, 0, 0]
+                    k = rng.randrange(5)
+                    f[k] = [rng.choice(vals[1:]), rng.randint(1, 129), rng.randint(1, 65535), rng.randint(1, 65535), rng.randint(1, 65535)][k]
+                    cells.append(ref_cell(*f))
                 elif style == "positional":
                     cells.append(ref_cell(vals[(ln * tracks + tr) % len(vals)], (ln + tr) % 130, ln & 0xFFFF, tr * 257 & 0xFFFF, (ln * tracks + tr) & 0xFFFF))
                 else:
